@@ -6,14 +6,14 @@ from spec import registers as SR
 from ..bits import BV, TOP, Aff, b_or, lit
 from ..interp import State, Unsupported
 from ..values import UNIT, Array, Enum, Opaque, Ptr, Ref, Struct
-from .common import asm_not_pure, U16, U64, adt, arg_obj, bv, enum_val, eval_value, fn_site, inner, same, sl
+from .common import refutes_canonical, asm_not_pure, U16, U64, adt, arg_obj, bv, enum_val, eval_value, fn_site, inner, same, sl
 
 LEVEL = 'proof'
-CR = 'registers::control::x86_64::<impl registers::control::'
-MS = 'registers::model_specific::x86_64::<impl registers::model_specific::'
-DB = 'registers::debug::x86_64::<impl registers::debug::'
-XC = 'registers::xcontrol::x86_64::<impl registers::xcontrol::'
-SEG = 'instructions::segmentation::<impl registers::segmentation::'
+CR = 'registers::control::'
+MS = 'registers::model_specific::'
+DB = 'registers::debug::'
+XC = 'registers::xcontrol::'
+SEG = 'registers::segmentation::'
 PA = (12, 52)
 
 
@@ -229,21 +229,21 @@ def run(chk):
     G('wrapper', 'rflags', lambda: rflags(w))
     G('wrapper', 'mxcsr', lambda: mxcsr(w))
     G('census', 'asm blocks', lambda: census(w))
-    chk.guard('asm-options', 'register wrappers', lambda: asm_not_pure(chk, chk.I, 'asm-options', ['src/registers/', 'src/instructions/segmentation.rs', 'src/instructions/tables.rs'], 45))
-    chk.floor('wrapper obligations', chk.rules.get('wrapper', 0), 220)
+    chk.guard('asm-options', 'register wrappers', lambda: asm_not_pure(chk, chk.I, 'asm-options', ['src/registers/', 'src/instructions/segmentation.rs', 'src/instructions/tables.rs'], 44))
+    chk.floor('wrapper obligations', chk.rules.get('wrapper', 0), 215)
 
 
 # ------------------------------------------------------------------------------------------------ CR0 / CR2 / CR4
 def control(w):
     for reg, T, FT in (('cr0', 'Cr0', 'registers::control::Cr0Flags'), ('cr4', 'Cr4', 'registers::control::Cr4Flags')):
-        w.raw_read(CR + T + '>::read_raw', reg, T + '::read_raw')
-        w.raw_write(CR + T + '>::write_raw', reg, T + '::write_raw', BV.sym(64, 'v'), BV.sym(64, 'v'))
-        w.flags_read(CR + T + '>::read', reg, FT, T + '::read')
-        w.flags_write(CR + T + '>::write', reg, FT, T + '::write')
-        w.flags_update(CR + T + '>::update', reg, FT, T + '::update')
-    w.raw_read(CR + 'Cr2>::read_raw', 'cr2', 'Cr2::read_raw')
+        w.raw_read(CR + T + '::read_raw', reg, T + '::read_raw')
+        w.raw_write(CR + T + '::write_raw', reg, T + '::write_raw', BV.sym(64, 'v'), BV.sym(64, 'v'))
+        w.flags_read(CR + T + '::read', reg, FT, T + '::read')
+        w.flags_write(CR + T + '::write', reg, FT, T + '::write')
+        w.flags_update(CR + T + '::update', reg, FT, T + '::update')
+    w.raw_read(CR + 'Cr2::read_raw', 'cr2', 'Cr2::read_raw')
     # Cr2::read = VirtAddr::try_new(raw)
-    fn_ = CR + 'Cr2>::read'
+    fn_ = CR + 'Cr2::read'
     outs = w.run(fn_, [])
     oks = [o for o in outs if o.kind == 'ret' and isinstance(o.val, Enum) and o.val.vname == 'Ok']
     ers = [o for o in outs if o.kind == 'ret' and isinstance(o.val, Enum) and o.val.vname == 'Err']
@@ -262,7 +262,7 @@ def frame_val(I, name='fr'):
 
 def cr3(w):
     I = w.I
-    P = CR + 'Cr3>::'
+    P = CR + 'Cr3::'
     lo, hi = SR.CR3_FRAME
     r = w.single(P + 'read_raw', w.run(P + 'read_raw', []), 'Cr3::read_raw', [('read', 'cr3')])
     if r:
@@ -341,26 +341,26 @@ def debug(w):
         T = '<registers::debug::Dr%d as registers::debug::DebugAddressRegister>::' % n
         w.raw_read(T + 'read', 'dr%d' % n, 'Dr%d::read' % n)
         w.raw_write(T + 'write', 'dr%d' % n, 'Dr%d::write' % n, BV.sym(64, 'a'), BV.sym(64, 'a'))
-    w.raw_read(DB + 'Dr6>::read_raw', 'dr6', 'Dr6::read_raw')
-    w.flags_read(DB + 'Dr6>::read', 'dr6', 'registers::debug::Dr6Flags', 'Dr6::read')
-    w.raw_read(DB + 'Dr7>::read_raw', 'dr7', 'Dr7::read_raw')
-    w.raw_write(DB + 'Dr7>::write_raw', 'dr7', 'Dr7::write_raw', BV.sym(64, 'v'), BV.sym(64, 'v'))
+    w.raw_read(DB + 'Dr6::read_raw', 'dr6', 'Dr6::read_raw')
+    w.flags_read(DB + 'Dr6::read', 'dr6', 'registers::debug::Dr6Flags', 'Dr6::read')
+    w.raw_read(DB + 'Dr7::read_raw', 'dr7', 'Dr7::read_raw')
+    w.raw_write(DB + 'Dr7::write_raw', 'dr7', 'Dr7::write_raw', BV.sym(64, 'v'), BV.sym(64, 'v'))
     valid = SR.DR7_FIELDS | SR.modelled_bits('registers::debug::Dr7Flags')
     w.flags_all('registers::debug::Dr7Flags')
-    fn_ = DB + 'Dr7>::read'
+    fn_ = DB + 'Dr7::read'
     r = w.single(fn_, w.run(fn_, []), 'Dr7::read', [('read', 'dr7')])
     if r:
         o, acc = r
         w.ob('Dr7::read: returns exactly the flag and field bits', same(inner(o.val), masked(acc[0].value, valid)), 'returned %r' % (o.val,), fn_)
     val = Struct('registers::debug::Dr7Value', [BV(64, [lit('d', i) if (valid >> i) & 1 else 0 for i in range(64)])])
-    w.flags_write(DB + 'Dr7>::write', 'dr7', None, 'Dr7::write', allb=valid, arg=val)
-    w.flags_update(DB + 'Dr7>::update', 'dr7', None, 'Dr7::update', allb=valid)
+    w.flags_write(DB + 'Dr7::write', 'dr7', None, 'Dr7::write', allb=valid, arg=val)
+    w.flags_update(DB + 'Dr7::update', 'dr7', None, 'Dr7::update', allb=valid)
 
 
 # ------------------------------------------------------------------------------------------------ MSRs
 def msr(w):
     I = w.I
-    M_ = MS + 'Msr>::'
+    M_ = MS + 'Msr::'
     st = State()
     ref = arg_obj(st, 'self', Struct('registers::model_specific::Msr', [BV.sym(32, 'idx')]))
     outs = w.run(M_ + 'read', [ref], st)
@@ -390,15 +390,15 @@ def mreg(name):
 def msr_wrappers(w):
     I = w.I
     # EFER
-    w.raw_read(MS + 'Efer>::read_raw', mreg('Efer'), 'Efer::read_raw')
-    w.raw_write(MS + 'Efer>::write_raw', mreg('Efer'), 'Efer::write_raw', BV.sym(64, 'v'), BV.sym(64, 'v'))
+    w.raw_read(MS + 'Efer::read_raw', mreg('Efer'), 'Efer::read_raw')
+    w.raw_write(MS + 'Efer::write_raw', mreg('Efer'), 'Efer::write_raw', BV.sym(64, 'v'), BV.sym(64, 'v'))
     FT = 'registers::model_specific::EferFlags'
-    w.flags_read(MS + 'Efer>::read', mreg('Efer'), FT, 'Efer::read')
-    w.flags_write(MS + 'Efer>::write', mreg('Efer'), FT, 'Efer::write')
-    w.flags_update(MS + 'Efer>::update', mreg('Efer'), FT, 'Efer::update')
+    w.flags_read(MS + 'Efer::read', mreg('Efer'), FT, 'Efer::read')
+    w.flags_write(MS + 'Efer::write', mreg('Efer'), FT, 'Efer::write')
+    w.flags_update(MS + 'Efer::update', mreg('Efer'), FT, 'Efer::update')
     # address-valued MSRs
     for T in ('FsBase', 'GsBase', 'KernelGsBase', 'LStar'):
-        fn_ = MS + T + '>::read'
+        fn_ = MS + T + '::read'
         outs = w.run(fn_, [])
         rets = [o for o in outs if o.kind == 'ret']
         pans = [o for o in outs if o.kind != 'ret']
@@ -407,14 +407,14 @@ def msr_wrappers(w):
             v = decode(rets[0])[0].value
             ok = same(inner(rets[0].val), canon(v))
         w.ob('%s::read: reads its MSR once and returns the address' % T, ok, 'paths %r' % (outs,), fn_)
-        w.ob('%s::read: panics only for a non-canonical register value' % T, len(pans) <= 1 and all(shape(decode(o)) == [('read', mreg(T))] and
-             any('eq(' in str(nn[0]) and nn[1] == 0 for nn in o.st.notes) for o in pans), 'panic paths %r' % ([o.st.notes for o in pans],), fn_)
+        w.ob('%s::read: panics only for a non-canonical register value' % T, all(shape(decode(o)) == [('read', mreg(T))] and
+             refutes_canonical(I, o, decode(o)[0].value) for o in pans), 'panic paths %r' % ([o.st.notes for o in pans],), fn_)
         va = I.sym_value(adt('addr::VirtAddr'), 'a')
-        w.raw_write(MS + T + '>::write', mreg(T), T + '::write', va, inner(va))
+        w.raw_write(MS + T + '::write', mreg(T), T + '::write', va, inner(va))
     # SFMASK
     RF = 'registers::rflags::RFlags'
     allb = w.flags_all(RF)
-    fn_ = MS + 'SFMask>::read'
+    fn_ = MS + 'SFMask::read'
     outs = w.run(fn_, [])
     rets = [o for o in outs if o.kind == 'ret']
     ok = len(rets) == 1 and shape(decode(rets[0])) == [('read', mreg('SFMask'))]
@@ -423,8 +423,8 @@ def msr_wrappers(w):
         ok = same(inner(rets[0].val), masked(v, allb))
     w.ob('SFMask::read: the register value as RFlags (rejects unmodelled bits by panicking)', ok and all(o.kind == 'panic' for o in outs if o not in rets), 'paths %r' % (outs,), fn_)
     fl = I.sym_value(adt(RF), 'fl')
-    w.raw_write(MS + 'SFMask>::write', mreg('SFMask'), 'SFMask::write', fl, inner(fl))
-    fn_ = MS + 'SFMask>::update'
+    w.raw_write(MS + 'SFMask::write', mreg('SFMask'), 'SFMask::write', fl, inner(fl))
+    fn_ = MS + 'SFMask::update'
     outs = w.run(fn_, [Opaque('the-closure')])
     rets = [o for o in outs if o.kind == 'ret']
     ok = len(rets) == 1 and shape(decode(rets[0])) == [('read', mreg('SFMask')), ('call', 'core::ops::FnOnce::call_once'), ('write', mreg('SFMask'))]
@@ -438,7 +438,7 @@ def msr_wrappers(w):
 # ------------------------------------------------------------------------------------------------ STAR
 def star(w):
     I = w.I
-    S = MS + 'Star>::'
+    S = MS + 'Star::'
     reg = mreg('Star')
     r = w.single(S + 'read_raw', w.run(S + 'read_raw', []), 'Star::read_raw', [('read', reg)])
     if r:
@@ -531,7 +531,7 @@ def cet(w):
     PG = adt('structures::paging::page::Page', adt('structures::paging::page::Size4KiB'))
     for T in ('UCet', 'SCet'):
         reg = mreg(T)
-        P = MS + T + '>::'
+        P = MS + T + '::'
         # read_raw / write_raw are private here: checked when present, the public read / write / update rules below are end to end
         if P + 'read_raw' in I.fn:
             w.raw_read(P + 'read_raw', reg, T + '::read_raw')
@@ -567,7 +567,7 @@ def cet(w):
 # ------------------------------------------------------------------------------------------------ PAT
 def pat(w):
     I = w.I
-    P = MS + 'Pat>::'
+    P = MS + 'Pat::'
     reg = mreg('Pat')
     PMT = 'registers::model_specific::PatMemoryType'
     r = w.single(P + 'read', w.run(P + 'read', []), 'Pat::read', [('read', reg)])
@@ -604,7 +604,7 @@ def pat(w):
 # ------------------------------------------------------------------------------------------------ APIC base
 def apic(w):
     I = w.I
-    P = MS + 'ApicBase>::'
+    P = MS + 'ApicBase::'
     reg = mreg('ApicBase')
     FT = 'registers::model_specific::ApicBaseFlags'
     allb = w.flags_all(FT)
@@ -655,7 +655,7 @@ def xcr0_valid(v):
 
 def xcr0(w):
     I = w.I
-    P = XC + 'XCr0>::'
+    P = XC + 'XCr0::'
     reg = ('xcr', SR.XCR0_INDEX)
     FT = 'registers::xcontrol::XCr0Flags'
     allb = w.flags_all(FT)
@@ -704,7 +704,7 @@ def segments(w):
     I = w.I
     SSn = 'registers::segmentation::SegmentSelector'
     for s in ('CS', 'SS', 'DS', 'ES', 'FS', 'GS'):
-        P = SEG + 'Segment for registers::segmentation::%s>::' % s
+        P = '<registers::segmentation::%s as registers::segmentation::Segment>::' % s
         r = w.single(P + 'get_reg', w.run(P + 'get_reg', []), '%s::get_reg' % s, [('read', s.lower())])
         if r:
             o, acc = r
@@ -720,7 +720,7 @@ def segments(w):
                 ok = isinstance(v, BV) and v.w == 16 and same(v, BV.sym(16, 'sel'))
             w.ob('%s::set_reg: loads the given selector' % s, ok, 'operand %r' % (v,), P + 'set_reg')
     for s in ('FS', 'GS'):
-        P = SEG + 'Segment64 for registers::segmentation::%s>::' % s
+        P = '<registers::segmentation::%s as registers::segmentation::Segment64>::' % s
         r = w.single(P + 'read_base', w.run(P + 'read_base', []), '%s::read_base' % s, [('read', s.lower() + 'base')])
         if r:
             o, acc = r
@@ -729,7 +729,7 @@ def segments(w):
         r = w.single(P + 'write_base', w.run(P + 'write_base', [va]), '%s::write_base' % s, [('write', s.lower() + 'base')])
         if r:
             w.ob('%s::write_base: writes the given address' % s, same(r[1][0].value, inner(va)), 'operand %r' % (r[1][0].value,), P + 'write_base')
-    fn_ = SEG + 'GS>::swap'
+    fn_ = SEG + 'GS::swap'
     w.single(fn_, w.run(fn_, []), 'GS::swap', [('swap', 'gsbase<->kernelgsbase')])
     fn_ = 'instructions::tables::load_tss'
     r = w.single(fn_, w.run(fn_, [Struct(SSn, [BV.sym(16, 'sel')])]), 'load_tss', [('write', 'tr')])
@@ -739,7 +739,7 @@ def segments(w):
 
 # ------------------------------------------------------------------------------------------------ RFLAGS / MXCSR
 def rflags(w):
-    P = 'registers::rflags::x86_64::'
+    P = 'registers::rflags::'
     FT = 'registers::rflags::RFlags'
     w.raw_read(P + 'read_raw', 'rflags', 'rflags::read_raw')
     w.raw_write(P + 'write_raw', 'rflags', 'rflags::write_raw', BV.sym(64, 'v'), BV.sym(64, 'v'))
@@ -750,7 +750,7 @@ def rflags(w):
 
 def mxcsr(w):
     I = w.I
-    P = 'registers::mxcsr::x86_64::'
+    P = 'registers::mxcsr::'
     FT = 'registers::mxcsr::MxCsr'
     allb = I.flags_all(FT)
     w.chk.ob('modelled-bits', FT, allb == SR.MXCSR_MODELLED, 'crate models %#x, architecture defines %#x' % (allb, SR.MXCSR_MODELLED), nontrivial=False)
@@ -777,16 +777,16 @@ def mxcsr(w):
 
 # ------------------------------------------------------------------------------------------------ census
 def census(w):
-    """every asm block of the register / segment modules decodes to an architectural access known to the oracle"""
+    """every asm block the register / segment wrappers execute decodes to an architectural access known to the oracle"""
+    from ..interp import Interp
     n = 0
     unknown = []
     for f in w.chk.facts['fns']:
         nm = f['name']
-        if not (nm.startswith('registers::') or nm.startswith('<registers::') or nm.startswith('instructions::segmentation') or nm == 'instructions::tables::load_tss'):
-            continue
         for b in f['blocks']:
             t = b['t']
-            if t and t['k'] == 'asm':
+            # wherever the wrappers live: the blocks this property's interpretations executed
+            if t and t['k'] == 'asm' and (nm, t['loc']) in Interp.ASM_TOUCHED:
                 n += 1
                 tpl = ''.join(p['s'] if 's' in p else '{%d%s}' % (p['op'], (':' + p['mod']) if p['mod'] else '') for p in t['tpl'])
                 if tuple(SI.insns(tpl)) not in SR.ACCESS:
